@@ -409,11 +409,16 @@ def rules(repo=None):
 
 
 EXPLANATION = (
-    "R1: float-taint analysis of the writer's groupby key / file timestamp and of the reader's start_ts/end_ts (true "
-    "division, longdouble samples_per_second, float literals are sources; taint survives int()/np.uint64()). R2: both "
-    "expressions are normalised as nested floor divisions of integer products and must both equal floor(k*d/(n*cadence)). "
-    "R3: regular-language equality of the file-name and sub-directory formats and inclusion in the listing grammar. R4: file "
-    "timestamp, sub-directory timestamp and path are recomputed from the group's own file index on every iteration (must-pass).")
+    "R1: float-taint analysis of the writer's grouping key (lambda, nested or module function, method), of every local in the "
+    "slice of the opened path, and of the reader's bounds (true division, longdouble samples_per_second, float literals are "
+    "sources; taint survives int()/np.uint64()). R2: straight-line symbolic evaluation of writer and reader followed by a "
+    "canonical form for nested floor divisions of integer products: the timestamp printed into the file name for sample k and "
+    "the sub-directory timestamp must be the same function of (k, d, n, cadences) on both sides. R3: regular-language equality "
+    "of the file-name and sub-directory formats (constants folded) and inclusion in the listing grammar. R4: every local in the "
+    "backward slice of the opened path is assigned on every iteration before the open (must-pass), and the slice reaches the "
+    "group's file index.")
+TECHNIQUE = ("Python ast; float-taint dataflow; symbolic straight-line evaluation + canonical form of nested floor divisions "
+             "(writer/reader sibling agreement); CFG must-pass over the backward slice; regular-language algebra")
 ASSUMPTIONS = ["Python int arithmetic is exact; floor(floor(x/a)/b) = floor(x/(a*b)) for positive integers",
                "strftime field widths for dates within the property's bounds"]
 FILES = ["python/digital_rf/digital_metadata.py", "python/digital_rf/list_drf.py"]
